@@ -207,11 +207,20 @@ def parse_numbers(numbers, is_date=False):
             # arange does not include the end point:
             end = float(colonList[-1]) + stepSign * 0.0001
             if is_date:
-                date = min(start, end)
+                first = int(min(start, float(colonList[-1])))
+                last = int(max(start, float(colonList[-1])))
                 curr = list()
-                while date <= max(start, end):
-                    curr.append(date)
-                    date = get_date(date, step)
+                if step > 0:
+                    date = first
+                    while date <= last:
+                        curr.append(date)
+                        date = get_date(date, step)
+                else:
+                    # A negative step counts down from the later date
+                    date = last
+                    while date >= first:
+                        curr.append(date)
+                        date = get_date(date, step)
                 values = values + list(curr)
             else:
                 # Note: Values are rounded, to avoid problems with floating point
